@@ -58,7 +58,13 @@ def main():
                 r = subprocess.run(['/venv/bin/python', '-m', 'fbverif.harness', prop, '--tier', tier],
                                    cwd=VERIF, env=env, capture_output=True, text=True)
                 sigs = [l.strip()[11:] for l in r.stdout.splitlines() if l.strip().startswith('signature:')]
-                res['checks'][prop] = {'exit': r.returncode, 'signatures': sigs[:4],
+                nviol = sum(1 for l in r.stdout.splitlines() if l.startswith('VIOLATION property='))
+                rc_eff = r.returncode
+                if rc_eff == 1 and nviol == 0:
+                    rc_eff = 3      # the harness itself failed (crash, syntax error): not a detection
+                    print('  !! %s on %s: exit 1 without a VIOLATION line (harness failure): %s' % (
+                        prop, sid, (r.stderr or r.stdout)[-200:].replace('\n', ' | ')), flush=True)
+                res['checks'][prop] = {'exit': rc_eff, 'signatures': sigs[:4],
                                        'wall_s': round(time.time() - t0, 1), 'tier': tier}
             caught = [p for p, c in res['checks'].items() if c['exit'] == 1]
             res['caught_by'] = caught
